@@ -92,6 +92,17 @@ func protect(f func()) (alive bool, what string) {
 	return true, ""
 }
 
+// recvGuard: in the bulk stream a panic that escapes handleBroadcastReceive (it has a
+// deferred recover, so this only happens when that recover is gone) is an observation,
+// not a harness crash; in a live child it kills the child like it would kill the node.
+func recvGuard(live bool, o *obsT, f func()) {
+	if live {
+		f()
+		return
+	}
+	o.Alive, o.Panic = protect(f)
+}
+
 const liveWait = 450 * time.Millisecond // > 2 periods of the 200 ms tickers
 
 // runCase drives one component through the events; emit is called after each event.
@@ -111,7 +122,9 @@ func runCase(c caseSpec, emit func(i int, o obsT)) error {
 				nominal = e.T * int64(time.Second)
 				setClock(nominal)
 			}
-			n.V.Receive(broadcast.VerifLtBlockTopic, buildLt(e.Lt), env.Peers[e.From], env.Peers[e.Pub])
+			recvGuard(c.Live, &o, func() {
+				n.V.Receive(broadcast.VerifLtBlockTopic, buildLt(e.Lt), env.Peers[e.From], env.Peers[e.Pub])
+			})
 		case "tick":
 			if c.Live {
 				time.Sleep(liveWait)
@@ -144,7 +157,9 @@ func runCase(c caseSpec, emit func(i int, o obsT)) error {
 			if !e.Decodes {
 				raw = []byte{0xff, 0xff, 0xff}
 			}
-			n.V.Receive(peerTopic, &types.PeerPubSubMsg{MsgID: broadcast.VerifBlockReqID, ProtoMsg: raw}, env.Peers[e.From], env.Peers[e.From])
+			recvGuard(c.Live, &o, func() {
+				n.V.Receive(peerTopic, &types.PeerPubSubMsg{MsgID: broadcast.VerifBlockReqID, ProtoMsg: raw}, env.Peers[e.From], env.Peers[e.From])
+			})
 		case "presp":
 			var raw []byte
 			if e.HasMsg {
@@ -156,9 +171,13 @@ func runCase(c caseSpec, emit func(i int, o obsT)) error {
 					raw = []byte{0xff, 0xff, 0xff}
 				}
 			}
-			n.V.Receive(peerTopic, &types.PeerPubSubMsg{MsgID: broadcast.VerifBlockRespID, ProtoMsg: raw}, env.Peers[e.Pub], env.Peers[e.Pub])
+			recvGuard(c.Live, &o, func() {
+				n.V.Receive(peerTopic, &types.PeerPubSubMsg{MsgID: broadcast.VerifBlockRespID, ProtoMsg: raw}, env.Peers[e.Pub], env.Peers[e.Pub])
+			})
 		case "pother":
-			n.V.Receive(peerTopic, &types.PeerPubSubMsg{MsgID: 77, ProtoMsg: []byte("x")}, env.Peers[1], env.Peers[1])
+			recvGuard(c.Live, &o, func() {
+				n.V.Receive(peerTopic, &types.PeerPubSubMsg{MsgID: 77, ProtoMsg: []byte("x")}, env.Peers[1], env.Peers[1])
+			})
 		default:
 			return fmt.Errorf("unknown op %q", e.Op)
 		}
